@@ -1,20 +1,28 @@
 import Pike.Driver.Fresh
+import Pike.Driver.Disp
+import Pike.Driver.Key
 open Pike.Driver
 
-def judgeLine (line : String) : String :=
-  match line.splitOn "\t" with
-  | "fresh" :: rest => judgeFresh rest
-  | s :: _ => s!"BADLINE unknown suite {s}"
-  | [] => "BADLINE empty"
+structure St where
+  disp : DispSt := {}
 
-partial def loop (h : IO.FS.Stream) (out : IO.FS.Stream) : IO Unit := do
+def judgeLine (st : St) (line : String) : St × String :=
+  match line.splitOn "\t" with
+  | "fresh" :: rest => (st, judgeFresh rest)
+  | "key" :: rest => (st, judgeKey rest)
+  | "disp" :: rest => let (d, v) := judgeDisp st.disp rest; ({ st with disp := d }, v)
+  | s :: _ => (st, s!"BADLINE unknown suite {s}")
+  | [] => (st, "BADLINE empty")
+
+partial def loop (h : IO.FS.Stream) (out : IO.FS.Stream) (st : St) : IO Unit := do
   let line ← h.getLine
   if line.isEmpty then return ()
   let l := if line.endsWith "\n" then (line.dropEnd 1).toString else line
-  out.putStrLn (judgeLine l)
-  loop h out
+  let (st', v) := judgeLine st l
+  out.putStrLn v
+  loop h out st'
 
 def main (_args : List String) : IO Unit := do
   let stdin ← IO.getStdin
   let stdout ← IO.getStdout
-  loop stdin stdout
+  loop stdin stdout {}
